@@ -12,6 +12,7 @@ if [ "${ROUND:-}" = d ]; then SRC=/tmp/mutd-$P-out; ID=$((N+6)); fi
 if [ "${ROUND:-}" = e ]; then SRC=/tmp/mute-$P-out; ID=$((N+8)); fi
 if [ "${ROUND:-}" = f ]; then SRC=/tmp/mutf-$P-out; ID=$((N+10)); fi
 if [ "${ROUND:-}" = g ]; then SRC=/tmp/mutg-$P-out; ID=$((N+12)); fi
+if [ "${ROUND:-}" = h ]; then SRC=/tmp/muth-$P-out; ID=$((N+14)); fi
 WT=/tmp/seedchk-$P-$ID
 export GOFLAGS=-mod=mod GOPROXY=off GOSUMDB=off GOTOOLCHAIN=local
 git -C /repo worktree remove --force $WT 2>/dev/null
